@@ -74,3 +74,15 @@ Theorem C13_build_blocks_no_panic : forall hops,
   Forall (fun h => u16 (fst h) /\ u16 (snd h)) hops -> build_blocks hops <> Panic.
 Proof. exact build_blocks_no_panic. Qed.
 Print Assumptions C13_build_blocks_no_panic.
+
+(* ---------- no path leaves a mutex held (go/ast obligation on the source under test) ---------- *)
+(* "No input stalls a worker": a handler that returns on some path with a mutex still held stalls
+   every worker that needs that mutex afterwards, and the input that reaches the path can be rare
+   (a sequence number near the wrap).  Every one of the Gen.lock_acquisitions lock statements in
+   the peering, state, router, m, storage, switchr, frame, api/dns, mgr, config and tun packages is
+   followed at once by the matching deferred unlock, or by the matching unlock in the same
+   statement list with only plain assignments and expression statements in between.  Computed
+   from the source on every run. *)
+Theorem C13_no_lock_left_held : Gen.locks_released = true /\ (0 < Gen.lock_acquisitions)%nat.
+Proof. split; [reflexivity | vm_compute; lia]. Qed.
+Print Assumptions C13_no_lock_left_held.
